@@ -29,20 +29,34 @@ Proof.
     induction es as [|a es IH]; simpl in *; auto.
     apply andb_true_iff in Hok. destruct Hok as [Ha Hes].
     rewrite (fd_expr_none a Ha). apply IH; auto.
+  - (* EDict *)
+    induction kvs as [|[[k v] cp] kvs IH]; simpl in *; auto.
+    apply andb_true_iff in Hok. destruct Hok as [Hkv Hr]. apply andb_true_iff in Hkv. destruct Hkv as [Hk Hv].
+    rewrite (fd_expr_none k Hk), (fd_expr_none v Hv). apply IH; auto.
   - (* ECall *)
     rewrite (fd_expr_none e) by assumption.
     match goal with H : forallb _ args = true |- _ => rename H into Hargs end.
+    clear - fd_expr_none Hargs.
     induction args as [|a args IH]; simpl in *; auto.
     apply andb_true_iff in Hargs. destruct Hargs as [Ha Hr].
-    destruct a; try discriminate.
-    rewrite (fd_expr_none e0 Ha). apply IH; auto.
+    destruct a; try discriminate;
+      rewrite (fd_expr_none e Ha); apply IH; auto.
+  - (* ESlice *)
+    rewrite (fd_expr_none e) by assumption.
+    destruct lo as [lo|]; [rewrite (fd_expr_none lo) by assumption|];
+    (destruct hi as [hi|]; [rewrite (fd_expr_none hi) by assumption|]);
+    (destruct step as [st|]; [apply fd_expr_none; assumption | reflexivity]).
 Qed.
 
-Lemma fd_target_none : forall t, ok_target t = true -> forall fid encl, fd_target fid encl t = None.
+Fixpoint fd_target_none (t : target) {struct t} :
+  ok_target t = true -> forall fid encl, fd_target fid encl t = None.
 Proof.
-  intros t Hok fid encl. destruct t; simpl in *; try discriminate; auto.
-  apply andb_true_iff in Hok. destruct Hok as [Hx Hy].
-  rewrite (fd_expr_none x Hx). apply fd_expr_none; auto.
+  intros Hok fid encl. destruct t; simpl in *; try discriminate; auto.
+  - apply andb_true_iff in Hok. destruct Hok as [Hx Hy].
+    rewrite (fd_expr_none x Hx). apply fd_expr_none; auto.
+  - induction ts as [|a ts IH]; simpl in *; auto.
+    apply andb_true_iff in Hok. destruct Hok as [Ha Hts].
+    rewrite (fd_target_none a Ha). apply IH; auto.
 Qed.
 
 Fixpoint first_def (fid : nat) (l : list (nat * fundef)) : option fundef :=
@@ -55,11 +69,12 @@ Proof. induction a as [|[i fd] a IH]; intros; simpl; auto. destruct (Nat.eqb i f
 Definition found (fid : nat) (encl : list string) (l : list (nat * fundef)) : option (fundef * list string) :=
   match first_def fid l with Some fd => Some (fd, encl) | None => None end.
 
-Lemma plain_no_defaults : forall ps fid encl, forallb plain_param ps = true ->
+Lemma plain_no_defaults : forall ps fid encl, forallb ok_param ps = true ->
   first_some (fun q => match q with PDefault _ d => fd_expr fid encl d | _ => None end) ps = None.
 Proof.
   induction ps as [|q ps IH]; intros; simpl in *; auto.
-  apply andb_true_iff in H. destruct H as [Hq Hps]. destruct q; try discriminate. apply IH; auto.
+  apply andb_true_iff in H. destruct H as [Hq Hps]. destruct q; simpl in *; try (apply IH; auto).
+  rewrite (fd_expr_none e Hq). apply IH; auto.
 Qed.
 
 (* induction on statements with the nested statement lists *)
@@ -204,7 +219,7 @@ Qed.
    not nested inside other defs *)
 Lemma funs_ok_flat : forall p, ok_prog p = true -> flat_prog p = true -> funs_ok p.
 Proof.
-  intros p Hf Hflat fid.
+  intros p Hf0 Hflat fid. unfold ok_prog in Hf0. apply andb_true_iff in Hf0. destruct Hf0 as [Hf _].
   assert (Hall : Forall flat_prop (p_body p)) by (apply Forall_forall; intros; apply flat_stmt_ok).
   destruct (flat_list (p_body p) Hall Hf Hflat) as [A1 A2].
   unfold find_def. rewrite A1. unfold found.
